@@ -1,0 +1,399 @@
+//go:build verif
+
+// Contracts for package server, checked by /verif/engine (govc). Comment-only file.
+//
+// c = ctx.rd.Reader = ctx.wr.Writer is the connection. fpos[c] is the number of request bytes
+// consumed, wn[c]/wdata[c] the response bytes written (see /verif/contracts/lib/wire.spec).
+// The server is generic in the handler's state type, so what a handler does is described by the
+// contract of the Handler interface in terms of the wire and of two abstract predicates that the
+// handler package defines: writeAllowed(h) and handlerInv(h, ctx).
+
+package server
+
+//@ spec writeAllowed(h ref) bool
+//@ spec handlerInv(h ref, ctx ref) bool
+//@ spec u64(x int) int = x >= 0 ? x : x + 18446744073709551616
+//@ spec gbe16(d int, p int) int = d[p] * 256 + d[p + 1]
+//@ spec gbe32(d int, p int) int = d[p] * 16777216 + d[p + 1] * 65536 + d[p + 2] * 256 + d[p + 3]
+//@ spec gbe64(d int, p int) int = gbe32(d, p) * 4294967296 + gbe32(d, p + 4)
+//@ ghost nctxclosed int
+
+//@ pred outKept(u ref) := wn[u] >= old(wn[u]) && (forall k {wdata[u][k]} :: k < old(wn[u]) ==> wdata[u][k] == old(wdata[u][k]))
+//@ pred wireUntouched(c ref) := fpos[c] == old(fpos[c]) && wn[c] == old(wn[c]) && wdata[c] == old(wdata[c]) && limbase[c] == old(limbase[c])
+//@ pred wfCtx(ctx ref) := ctx != nil && ctx.rd.Reader != nil && ctx.wr.Writer == ctx.rd.Reader && limbase[ctx.rd.Reader] == 0 && wsink(ctx.rd.Reader) == ctx.rd.Reader && isconn[ctx.rd.Reader] && wsink(io.Discard) != ctx.rd.Reader
+
+// ---- the Handler interface ---------------------------------------------------------------------
+
+//@ func Handler.HandleOpenDir params(ctx, path) results(ok)
+//@   requires recv != nil && wfCtx(ctx) && handlerInv(recv, ctx)
+//@   modifies ctx.State, fopen, fpos, limbase, iofaults
+//@   ensures iofaults >= old(iofaults) && handlerInv(recv, ctx) && wireUntouched(ctx.rd.Reader) && fsw == old(fsw)
+//@ func Handler.HandleReadDir params(ctx) results(entries)
+//@   requires recv != nil && wfCtx(ctx) && handlerInv(recv, ctx)
+//@   modifies ctx.State, fopen, fpos, limbase, iofaults
+//@   ensures iofaults >= old(iofaults) && handlerInv(recv, ctx) && wireUntouched(ctx.rd.Reader) && fsw == old(fsw)
+//@   ensures forall y {at(entries, y)} :: base(entries) <= y && y < end(entries) ==> at(entries, y) != nil
+//@ func Handler.HandleReadDirEntry params(ctx) results(fi)
+//@   requires recv != nil && wfCtx(ctx) && handlerInv(recv, ctx)
+//@   modifies ctx.State, fopen, fpos, limbase, iofaults
+//@   ensures iofaults >= old(iofaults) && handlerInv(recv, ctx) && wireUntouched(ctx.rd.Reader) && fsw == old(fsw)
+//@ func Handler.HandleStatFile params(ctx, path) results(fi, err)
+//@   requires recv != nil && wfCtx(ctx) && handlerInv(recv, ctx)
+//@   modifies ctx.State, fopen, fpos, limbase, iofaults
+//@   ensures iofaults >= old(iofaults) && handlerInv(recv, ctx) && wireUntouched(ctx.rd.Reader) && fsw == old(fsw)
+//@   ensures err == nil ==> fi != nil
+//@ func Handler.HandleOpenFile params(ctx, path) results(fi, err)
+//@   requires recv != nil && wfCtx(ctx) && handlerInv(recv, ctx)
+//@   modifies ctx.State, fopen, fpos, limbase, iofaults
+//@   ensures iofaults >= old(iofaults) && handlerInv(recv, ctx) && wireUntouched(ctx.rd.Reader) && fsw == old(fsw)
+//@   ensures err == nil ==> fi != nil
+//@ func Handler.HandleCloseFile params(ctx)
+//@   requires recv != nil && wfCtx(ctx) && handlerInv(recv, ctx)
+//@   modifies ctx.State, fopen, fpos, limbase, iofaults
+//@   ensures iofaults >= old(iofaults) && handlerInv(recv, ctx) && wireUntouched(ctx.rd.Reader) && fsw == old(fsw)
+//@ func Handler.HandleReadFile params(ctx, limit, offset, w) results(err)
+//@   requires recv != nil && wfCtx(ctx) && handlerInv(recv, ctx) && w != nil && wsink(w) == ctx.rd.Reader
+//@   modifies ctx.State, fopen, fpos, limbase, iofaults, wn[ctx.rd.Reader], wdata[ctx.rd.Reader], rwhdr[w], repr(w)
+//@   let c = ctx.rd.Reader
+//@   ensures iofaults >= old(iofaults) && handlerInv(recv, ctx) && fsw == old(fsw) && fpos[c] == old(fpos[c]) && limbase[c] == 0 && outKept(c)
+//@   ensures rwOK(w) @writer-consistent
+//@   ensures err == nil && limit < 1<<31 && typeis(w, "*server.readFileResponseWriter") ==> cast(w, "server.readFileResponseWriter").dataLength >= 0 @header-attempted
+//@   ensures !rwhdr[w] ==> wn[c] <= old(wn[c]) + 4 @torn-header-only
+//@   ensures err == nil && limit < 1<<31 && rwhdr[w] ==> wn[c] >= old(wn[c]) + 4 && sbe32(wdata[c], old(wn[c])) == wn[c] - old(wn[c]) - 4 && wn[c] - old(wn[c]) - 4 <= limit @announced-equals-sent
+//@ func Handler.HandleReadFileCritical params(ctx, limit, offset, w) results(err)
+//@   requires recv != nil && wfCtx(ctx) && handlerInv(recv, ctx) && w == ctx.rd.Reader
+//@   modifies ctx.State, fopen, fpos, limbase, iofaults, wn[ctx.rd.Reader], wdata[ctx.rd.Reader]
+//@   let c = ctx.rd.Reader
+//@   ensures iofaults >= old(iofaults) && handlerInv(recv, ctx) && fsw == old(fsw) && fpos[c] == old(fpos[c]) && limbase[c] == 0 && outKept(c)
+//@   ensures wn[c] <= old(wn[c]) + limit && (err == nil ==> wn[c] == old(wn[c]) + limit)
+//@ func Handler.HandleReadCD2048Critical params(ctx, startSector, sectorsToRead, w) results(err)
+//@   requires recv != nil && wfCtx(ctx) && handlerInv(recv, ctx) && w == ctx.rd.Reader
+//@   modifies ctx.State, fopen, fpos, limbase, iofaults, wn[ctx.rd.Reader], wdata[ctx.rd.Reader]
+//@   let c = ctx.rd.Reader
+//@   ensures iofaults >= old(iofaults) && handlerInv(recv, ctx) && fsw == old(fsw) && fpos[c] == old(fpos[c]) && limbase[c] == 0 && outKept(c)
+//@   ensures wn[c] <= old(wn[c]) + 2048 * sectorsToRead && (err == nil ==> wn[c] == old(wn[c]) + 2048 * sectorsToRead)
+//@ func Handler.HandleCreateFile params(ctx, path) results(err)
+//@   requires recv != nil && wfCtx(ctx) && handlerInv(recv, ctx)
+//@   modifies ctx.State, fopen, fpos, limbase, iofaults, fsw
+//@   ensures iofaults >= old(iofaults) && handlerInv(recv, ctx) && wireUntouched(ctx.rd.Reader)
+//@   ensures !writeAllowed(recv) ==> fsw == old(fsw) && err != nil
+//@ func Handler.HandleWriteFile params(ctx, data) results(n, err)
+//@   requires recv != nil && wfCtx(ctx) && handlerInv(recv, ctx) && data != nil && limbase[data] == ctx.rd.Reader && fpos[data] == 0 && fsize[data] >= 0
+//@   modifies ctx.State, fopen, fpos, limbase, iofaults, fsw, wn, wdata
+//@   let c = ctx.rd.Reader
+//@   ensures iofaults >= old(iofaults) && handlerInv(recv, ctx) && wn[c] == old(wn[c]) && wdata[c] == old(wdata[c]) && limbase[c] == 0 && limbase[data] == c
+//@   ensures !writeAllowed(recv) ==> fsw == old(fsw) && err != nil
+//@   ensures fpos[c] == old(fpos[c]) + fpos[data] && 0 <= fpos[data] && fpos[data] <= fsize[data] @payload-window
+//@   ensures err == nil ==> fpos[data] == fsize[data] @whole-payload
+//@ func Handler.HandleDeleteFile params(ctx, path) results(err)
+//@   requires recv != nil && wfCtx(ctx) && handlerInv(recv, ctx)
+//@   modifies ctx.State, fopen, fpos, limbase, iofaults, fsw
+//@   ensures iofaults >= old(iofaults) && handlerInv(recv, ctx) && wireUntouched(ctx.rd.Reader)
+//@   ensures !writeAllowed(recv) ==> fsw == old(fsw) && err != nil
+//@ func Handler.HandleMkdir params(ctx, path) results(err)
+//@   requires recv != nil && wfCtx(ctx) && handlerInv(recv, ctx)
+//@   modifies ctx.State, fopen, fpos, limbase, iofaults, fsw
+//@   ensures iofaults >= old(iofaults) && handlerInv(recv, ctx) && wireUntouched(ctx.rd.Reader)
+//@   ensures !writeAllowed(recv) ==> fsw == old(fsw) && err != nil
+//@ func Handler.HandleRmdir params(ctx, path) results(err)
+//@   requires recv != nil && wfCtx(ctx) && handlerInv(recv, ctx)
+//@   modifies ctx.State, fopen, fpos, limbase, iofaults, fsw
+//@   ensures iofaults >= old(iofaults) && handlerInv(recv, ctx) && wireUntouched(ctx.rd.Reader)
+//@   ensures !writeAllowed(recv) ==> fsw == old(fsw) && err != nil
+//@ func Handler.HandleGetDirSize params(ctx, path) results(n, err)
+//@   requires recv != nil && wfCtx(ctx) && handlerInv(recv, ctx)
+//@   modifies ctx.State, fopen, fpos, limbase, iofaults, walkroot
+//@   ensures iofaults >= old(iofaults) && handlerInv(recv, ctx) && wireUntouched(ctx.rd.Reader) && fsw == old(fsw)
+
+// ---- ReadFileResponseWriter ------------------------------------------------------------------------
+//
+// rwhdr[w]: the 4-byte length header has been written completely through w.
+
+//@ ghost rwhdr map[int]bool
+//@ typeinv readFileResponseWriter: wsink(this) == wsink(this.upstream)
+// representation invariant of the only implementation: no recorded header error means the header went out
+//@ pred rwOK(w ref) := typeis(w, "*server.readFileResponseWriter") && cast(w, "server.readFileResponseWriter").dataLength != -1 && cast(w, "server.readFileResponseWriter").headerErr == nil ==> rwhdr[w]
+
+//@ func ReadFileResponseWriter.WriteHeader params(length)
+//@   requires recv != nil
+//@   modifies wn[wsink(recv)], wdata[wsink(recv)], rwhdr[recv], iofaults, repr(recv)
+//@   ensures rwOK(recv) && (typeis(recv, "*server.readFileResponseWriter") ==> cast(recv, "server.readFileResponseWriter").dataLength == length)
+//@   let u = wsink(recv)
+//@   ensures outKept(u) && iofaults >= old(iofaults)
+//@   ensures rwhdr[recv] ==> wn[u] == old(wn[u]) + 4 && sbe32(wdata[u], old(wn[u])) == length
+//@   ensures !rwhdr[recv] ==> wn[u] <= old(wn[u]) + 4
+//@   ensures iofaults == old(iofaults) ==> rwhdr[recv]
+
+//@ func readFileResponseWriter.WriteHeader
+//@   tags C02,C03,C04
+//@   requires w != nil && w.upstream != nil
+//@   modifies wn[wsink(w)], wdata[wsink(w)], w.dataLength, w.headerErr, iofaults
+//@   let u = wsink(w)
+//@   ensures outKept(u) && iofaults >= old(iofaults) && w.dataLength == length
+//@   ensures[C02,C03] w.headerErr == nil ==> wn[u] == old(wn[u]) + 4 && sbe32(wdata[u], old(wn[u])) == length @header-sent
+//@   ensures[C03] wn[u] <= old(wn[u]) + 4 @at-most-header
+//@   ensures iofaults == old(iofaults) ==> w.headerErr == nil
+
+//@ func readFileResponseWriter.Write results(n, err)
+//@   tags C02,C03,C04
+//@   any k int
+//@   requires w != nil && w.upstream != nil
+//@   modifies wn[wsink(w)], wdata[wsink(w)], iofaults
+//@   let u = wsink(w)
+//@   ensures outKept(u) && iofaults >= old(iofaults) && 0 <= n && n <= len(p) && wn[u] == old(wn[u]) + n
+//@   ensures[C02] old(wn[u]) <= k && k < wn[u] ==> wdata[u][k] == raw(p, base(p) + k - old(wn[u])) @bytes
+//@   ensures[C02,C03] w.headerErr != nil || w.dataLength <= 0 ==> n == 0 && err != nil @nothing-unannounced
+//@   ensures n < len(p) ==> err != nil
+
+// ---- Context ------------------------------------------------------------------------------------------
+
+//@ func Context.Close results(err)
+//@   tags C13,C04
+//@   requires s != nil
+//@   modifies fopen, iofaults
+//@   update nctxclosed = nctxclosed + 1
+//@   ensures[C13] nctxclosed == old(nctxclosed) + 1
+
+// ---- request handlers -----------------------------------------------------------------------------------
+
+//@ func Server.handleOpenDir results(err)
+//@   tags C03,C05,C04
+//@   requires s != nil && s.Handler != nil && wfCtx(ctx) && handlerInv(s.Handler, ctx)
+//@   modifies ctx.State, fopen, fpos, limbase, iofaults, wn[ctx.rd.Reader], wdata[ctx.rd.Reader]
+//@   let c = ctx.rd.Reader
+//@   let L = gbe16(ctx.rd.cmd.Data, 0)
+//@   ensures handlerInv(s.Handler, ctx) @inv
+//@   ensures outKept(c) @out-kept
+//@   ensures limbase[c] == 0 && iofaults >= old(iofaults) @misc
+//@   ensures[C05] fsw == old(fsw) @no-write
+//@   ensures[C03] err == nil ==> fpos[c] == old(fpos[c]) + L && wn[c] == old(wn[c]) + 4 @one-request-one-response
+//@   ensures[C03] fpos[c] >= old(fpos[c]) && fpos[c] <= old(fpos[c]) + L && wn[c] <= old(wn[c]) + 4 @no-stray-bytes
+
+//@ func Server.handleReadDirEntry results(err)
+//@   tags C03,C05,C04
+//@   requires s != nil && s.Handler != nil && wfCtx(ctx) && handlerInv(s.Handler, ctx)
+//@   modifies ctx.State, fopen, fpos, limbase, iofaults, wn[ctx.rd.Reader], wdata[ctx.rd.Reader]
+//@   let c = ctx.rd.Reader
+//@   ensures handlerInv(s.Handler, ctx) @inv
+//@   ensures outKept(c) @out-kept
+//@   ensures limbase[c] == 0 && iofaults >= old(iofaults) @misc
+//@   ensures[C05] fsw == old(fsw) @no-write
+//@   ensures[C03] fpos[c] == old(fpos[c]) @nothing-consumed
+//@   ensures[C03] err == nil ==> wn[c] == old(wn[c]) + 11 + be16(wdata[c], old(wn[c]) + 8) @one-response
+
+//@ func Server.handleReadDirEntryV2 results(err)
+//@   tags C03,C05,C04
+//@   requires s != nil && s.Handler != nil && wfCtx(ctx) && handlerInv(s.Handler, ctx)
+//@   modifies ctx.State, fopen, fpos, limbase, iofaults, wn[ctx.rd.Reader], wdata[ctx.rd.Reader]
+//@   let c = ctx.rd.Reader
+//@   ensures handlerInv(s.Handler, ctx) @inv
+//@   ensures outKept(c) @out-kept
+//@   ensures limbase[c] == 0 && iofaults >= old(iofaults) @misc
+//@   ensures[C05] fsw == old(fsw) @no-write
+//@   ensures[C03] fpos[c] == old(fpos[c]) @nothing-consumed
+//@   ensures[C03] err == nil ==> wn[c] == old(wn[c]) + 35 + be16(wdata[c], old(wn[c]) + 32) @one-response
+
+//@ func Server.handleReadDir results(err)
+//@   tags C03,C05,C04
+//@   requires s != nil && s.Handler != nil && wfCtx(ctx) && handlerInv(s.Handler, ctx)
+//@   modifies ctx.State, fopen, fpos, limbase, iofaults, wn[ctx.rd.Reader], wdata[ctx.rd.Reader]
+//@   let c = ctx.rd.Reader
+//@   ensures handlerInv(s.Handler, ctx) @inv
+//@   ensures outKept(c) @out-kept
+//@   ensures limbase[c] == 0 && iofaults >= old(iofaults) @misc
+//@   ensures[C05] fsw == old(fsw) @no-write
+//@   ensures[C03] fpos[c] == old(fpos[c]) @nothing-consumed
+//@   ensures[C03] err == nil ==> wn[c] == old(wn[c]) + 8 + 529 * sbe64(wdata[c], old(wn[c])) @one-response
+
+//@ func Server.handleStatFile results(err)
+//@   tags C03,C05,C04
+//@   requires s != nil && s.Handler != nil && wfCtx(ctx) && handlerInv(s.Handler, ctx)
+//@   modifies ctx.State, fopen, fpos, limbase, iofaults, wn[ctx.rd.Reader], wdata[ctx.rd.Reader]
+//@   let c = ctx.rd.Reader
+//@   let L = gbe16(ctx.rd.cmd.Data, 0)
+//@   ensures handlerInv(s.Handler, ctx) @inv
+//@   ensures outKept(c) @out-kept
+//@   ensures limbase[c] == 0 && iofaults >= old(iofaults) @misc
+//@   ensures[C05] fsw == old(fsw) @no-write
+//@   ensures[C03] err == nil ==> fpos[c] == old(fpos[c]) + L && wn[c] == old(wn[c]) + 33 @one-request-one-response
+//@   ensures[C03] fpos[c] >= old(fpos[c]) && fpos[c] <= old(fpos[c]) + L && wn[c] <= old(wn[c]) + 33 @no-stray-bytes
+
+//@ func Server.handleOpenFile results(err)
+//@   tags C03,C05,C04,C02
+//@   requires s != nil && s.Handler != nil && wfCtx(ctx) && handlerInv(s.Handler, ctx)
+//@   modifies ctx.State, fopen, fpos, limbase, iofaults, wn[ctx.rd.Reader], wdata[ctx.rd.Reader]
+//@   let c = ctx.rd.Reader
+//@   let L = gbe16(ctx.rd.cmd.Data, 0)
+//@   ensures handlerInv(s.Handler, ctx) @inv
+//@   ensures outKept(c) @out-kept
+//@   ensures limbase[c] == 0 && iofaults >= old(iofaults) @misc
+//@   ensures[C05] fsw == old(fsw) @no-write
+//@   ensures[C03] err == nil ==> fpos[c] == old(fpos[c]) + L && wn[c] == old(wn[c]) + 16 @one-request-one-response
+//@   ensures[C03] fpos[c] >= old(fpos[c]) && fpos[c] <= old(fpos[c]) + L && wn[c] <= old(wn[c]) + 16 @no-stray-bytes
+
+//@ func Server.handleReadFile results(err)
+//@   tags C03,C02,C05,C04
+//@   requires s != nil && s.Handler != nil && wfCtx(ctx) && handlerInv(s.Handler, ctx)
+//@   modifies ctx.State, fopen, fpos, limbase, iofaults, wn[ctx.rd.Reader], wdata[ctx.rd.Reader], rwhdr
+//@   let c = ctx.rd.Reader
+//@   ensures handlerInv(s.Handler, ctx) @inv
+//@   ensures outKept(c) @out-kept
+//@   ensures limbase[c] == 0 && iofaults >= old(iofaults) @misc
+//@   ensures[C05] fsw == old(fsw) @no-write
+//@   ensures[C03] fpos[c] == old(fpos[c]) @nothing-consumed
+//@   ensures[C03,C02] err == nil && gbe32(ctx.rd.cmd.Data, 2) < 1<<31 ==> wn[c] >= old(wn[c]) + 4 && sbe32(wdata[c], old(wn[c])) == wn[c] - old(wn[c]) - 4 && wn[c] - old(wn[c]) - 4 <= gbe32(ctx.rd.cmd.Data, 2) @announced-equals-sent
+
+//@ func Server.handleReadFileCritical results(err)
+//@   tags C03,C02,C05,C04
+//@   requires s != nil && s.Handler != nil && wfCtx(ctx) && handlerInv(s.Handler, ctx)
+//@   modifies ctx.State, fopen, fpos, limbase, iofaults, wn[ctx.rd.Reader], wdata[ctx.rd.Reader]
+//@   let c = ctx.rd.Reader
+//@   ensures handlerInv(s.Handler, ctx) @inv
+//@   ensures outKept(c) @out-kept
+//@   ensures limbase[c] == 0 && iofaults >= old(iofaults) @misc
+//@   ensures[C05] fsw == old(fsw) @no-write
+//@   ensures[C03] fpos[c] == old(fpos[c]) @nothing-consumed
+//@   ensures[C03,C02] wn[c] <= old(wn[c]) + gbe32(ctx.rd.cmd.Data, 2) && (err == nil ==> wn[c] == old(wn[c]) + gbe32(ctx.rd.cmd.Data, 2)) @exact-or-disconnect
+
+//@ func Server.handleReadCD2048Critical results(err)
+//@   tags C03,C17,C05,C04
+//@   requires s != nil && s.Handler != nil && wfCtx(ctx) && handlerInv(s.Handler, ctx)
+//@   modifies ctx.State, fopen, fpos, limbase, iofaults, wn[ctx.rd.Reader], wdata[ctx.rd.Reader]
+//@   let c = ctx.rd.Reader
+//@   ensures handlerInv(s.Handler, ctx) @inv
+//@   ensures outKept(c) @out-kept
+//@   ensures limbase[c] == 0 && iofaults >= old(iofaults) @misc
+//@   ensures[C05] fsw == old(fsw) @no-write
+//@   ensures[C03] fpos[c] == old(fpos[c]) @nothing-consumed
+//@   ensures[C03,C17] wn[c] <= old(wn[c]) + 2048 * gbe32(ctx.rd.cmd.Data, 6) && (err == nil ==> wn[c] == old(wn[c]) + 2048 * gbe32(ctx.rd.cmd.Data, 6)) @count-sectors-or-disconnect
+
+//@ func Server.handleCreateFile results(err)
+//@   tags C03,C05,C04
+//@   requires s != nil && s.Handler != nil && wfCtx(ctx) && handlerInv(s.Handler, ctx)
+//@   modifies ctx.State, fopen, fpos, limbase, iofaults, fsw, wn[ctx.rd.Reader], wdata[ctx.rd.Reader]
+//@   let c = ctx.rd.Reader
+//@   let L = gbe16(ctx.rd.cmd.Data, 0)
+//@   ensures handlerInv(s.Handler, ctx) @inv
+//@   ensures outKept(c) @out-kept
+//@   ensures limbase[c] == 0 && iofaults >= old(iofaults) @misc
+//@   ensures[C05] !writeAllowed(s.Handler) ==> fsw == old(fsw) && (err == nil ==> sbe32(wdata[c], old(wn[c])) == -1) @refused-with-failure-code
+//@   ensures[C03] err == nil ==> fpos[c] == old(fpos[c]) + L && wn[c] == old(wn[c]) + 4 @one-request-one-response
+//@   ensures[C03] fpos[c] >= old(fpos[c]) && fpos[c] <= old(fpos[c]) + L && wn[c] <= old(wn[c]) + 4 @no-stray-bytes
+
+//@ func Server.handleDeleteFile results(err)
+//@   tags C03,C05,C04
+//@   requires s != nil && s.Handler != nil && wfCtx(ctx) && handlerInv(s.Handler, ctx)
+//@   modifies ctx.State, fopen, fpos, limbase, iofaults, fsw, wn[ctx.rd.Reader], wdata[ctx.rd.Reader]
+//@   let c = ctx.rd.Reader
+//@   let L = gbe16(ctx.rd.cmd.Data, 0)
+//@   ensures handlerInv(s.Handler, ctx) @inv
+//@   ensures outKept(c) @out-kept
+//@   ensures limbase[c] == 0 && iofaults >= old(iofaults) @misc
+//@   ensures[C05] !writeAllowed(s.Handler) ==> fsw == old(fsw) && (err == nil ==> sbe32(wdata[c], old(wn[c])) == -1) @refused-with-failure-code
+//@   ensures[C03] err == nil ==> fpos[c] == old(fpos[c]) + L && wn[c] == old(wn[c]) + 4 @one-request-one-response
+//@   ensures[C03] fpos[c] >= old(fpos[c]) && fpos[c] <= old(fpos[c]) + L && wn[c] <= old(wn[c]) + 4 @no-stray-bytes
+
+//@ func Server.handleMkdir results(err)
+//@   tags C03,C05,C04
+//@   requires s != nil && s.Handler != nil && wfCtx(ctx) && handlerInv(s.Handler, ctx)
+//@   modifies ctx.State, fopen, fpos, limbase, iofaults, fsw, wn[ctx.rd.Reader], wdata[ctx.rd.Reader]
+//@   let c = ctx.rd.Reader
+//@   let L = gbe16(ctx.rd.cmd.Data, 0)
+//@   ensures handlerInv(s.Handler, ctx) @inv
+//@   ensures outKept(c) @out-kept
+//@   ensures limbase[c] == 0 && iofaults >= old(iofaults) @misc
+//@   ensures[C05] !writeAllowed(s.Handler) ==> fsw == old(fsw) && (err == nil ==> sbe32(wdata[c], old(wn[c])) == -1) @refused-with-failure-code
+//@   ensures[C03] err == nil ==> fpos[c] == old(fpos[c]) + L && wn[c] == old(wn[c]) + 4 @one-request-one-response
+//@   ensures[C03] fpos[c] >= old(fpos[c]) && fpos[c] <= old(fpos[c]) + L && wn[c] <= old(wn[c]) + 4 @no-stray-bytes
+
+//@ func Server.handleRmdir results(err)
+//@   tags C03,C05,C04
+//@   requires s != nil && s.Handler != nil && wfCtx(ctx) && handlerInv(s.Handler, ctx)
+//@   modifies ctx.State, fopen, fpos, limbase, iofaults, fsw, wn[ctx.rd.Reader], wdata[ctx.rd.Reader]
+//@   let c = ctx.rd.Reader
+//@   let L = gbe16(ctx.rd.cmd.Data, 0)
+//@   ensures handlerInv(s.Handler, ctx) @inv
+//@   ensures outKept(c) @out-kept
+//@   ensures limbase[c] == 0 && iofaults >= old(iofaults) @misc
+//@   ensures[C05] !writeAllowed(s.Handler) ==> fsw == old(fsw) && (err == nil ==> sbe32(wdata[c], old(wn[c])) == -1) @refused-with-failure-code
+//@   ensures[C03] err == nil ==> fpos[c] == old(fpos[c]) + L && wn[c] == old(wn[c]) + 4 @one-request-one-response
+//@   ensures[C03] fpos[c] >= old(fpos[c]) && fpos[c] <= old(fpos[c]) + L && wn[c] <= old(wn[c]) + 4 @no-stray-bytes
+
+//@ func Server.handleGetDirSize results(err)
+//@   tags C03,C05,C04
+//@   requires s != nil && s.Handler != nil && wfCtx(ctx) && handlerInv(s.Handler, ctx)
+//@   modifies ctx.State, fopen, fpos, limbase, iofaults, walkroot, wn[ctx.rd.Reader], wdata[ctx.rd.Reader]
+//@   let c = ctx.rd.Reader
+//@   let L = gbe16(ctx.rd.cmd.Data, 0)
+//@   ensures handlerInv(s.Handler, ctx) @inv
+//@   ensures outKept(c) @out-kept
+//@   ensures limbase[c] == 0 && iofaults >= old(iofaults) @misc
+//@   ensures[C05] fsw == old(fsw) @no-write
+//@   ensures[C03] err == nil ==> fpos[c] == old(fpos[c]) + L && wn[c] == old(wn[c]) + 8 @one-request-one-response
+//@   ensures[C03] fpos[c] >= old(fpos[c]) && fpos[c] <= old(fpos[c]) + L && wn[c] <= old(wn[c]) + 8 @no-stray-bytes
+
+//@ func Server.handleWriteFile results(err)
+//@   tags C03,C05,C04
+//@   requires s != nil && s.Handler != nil && wfCtx(ctx) && handlerInv(s.Handler, ctx) && fsize[ctx.rd.Reader] >= fpos[ctx.rd.Reader] && fpos[ctx.rd.Reader] >= 0
+//@   modifies ctx.State, fopen, fpos, limbase, iofaults, fsw, wn, wdata
+//@   let c = ctx.rd.Reader
+//@   let P = gbe32(ctx.rd.cmd.Data, 2)
+//@   ensures handlerInv(s.Handler, ctx) @inv
+//@   ensures outKept(c) @out-kept
+//@   ensures limbase[c] == 0 && iofaults >= old(iofaults) @misc
+//@   ensures[C05] !writeAllowed(s.Handler) ==> fsw == old(fsw) && (err == nil ==> sbe32(wdata[c], old(wn[c])) == -1) @refused-with-failure-code
+//@   ensures[C03] err == nil ==> fpos[c] == old(fpos[c]) + min(P, fsize[c] - old(fpos[c])) && wn[c] == old(wn[c]) + 4 @payload-consumed-one-response
+//@   ensures[C03] fpos[c] >= old(fpos[c]) && fpos[c] <= old(fpos[c]) + P && wn[c] <= old(wn[c]) + 4 @no-stray-bytes
+
+// ---- dispatch and the connection loop ------------------------------------------------------------------
+
+//@ pred knownOp(op int) := op >= 0x1224 && op <= 0x1232
+
+//@ func Server.handleCommand results(err)
+//@   tags C03,C05,C04
+//@   requires s != nil && s.Handler != nil && wfCtx(ctx) && handlerInv(s.Handler, ctx) && fsize[ctx.rd.Reader] >= fpos[ctx.rd.Reader] && fpos[ctx.rd.Reader] >= 0
+//@   modifies ctx.State, fopen, fpos, limbase, iofaults, fsw, walkroot, rwhdr, wn, wdata
+//@   let c = ctx.rd.Reader
+//@   let L = gbe16(ctx.rd.cmd.Data, 0)
+//@   ensures handlerInv(s.Handler, ctx) @inv
+//@   ensures outKept(c) @out-kept
+//@   ensures limbase[c] == 0 && iofaults >= old(iofaults) @misc
+//@   ensures[C05] !writeAllowed(s.Handler) ==> fsw == old(fsw) @read-only-unless-enabled
+//@   ensures[C03] !knownOp(opCode) ==> err != nil && fpos[c] == old(fpos[c]) && wn[c] == old(wn[c]) @unknown-opcode-ends-connection
+//@   ensures[C03] fpos[c] >= old(fpos[c]) @consumes-forward
+//@   ensures[C03] err == nil && (opCode == proto.CmdOpenDir || opCode == proto.CmdCreateFile || opCode == proto.CmdDeleteFile || opCode == proto.CmdMkdir || opCode == proto.CmdRmdir) ==> fpos[c] == old(fpos[c]) + L && wn[c] == old(wn[c]) + 4 @path-request-4-byte-response
+//@   ensures[C03] err == nil && opCode == proto.CmdStatFile ==> fpos[c] == old(fpos[c]) + L && wn[c] == old(wn[c]) + 33 @stat
+//@   ensures[C03] err == nil && opCode == proto.CmdOpenFile ==> fpos[c] == old(fpos[c]) + L && wn[c] == old(wn[c]) + 16 @open-file
+//@   ensures[C03] err == nil && opCode == proto.CmdGetDirSize ==> fpos[c] == old(fpos[c]) + L && wn[c] == old(wn[c]) + 8 @dir-size
+//@   ensures[C03] err == nil && opCode == proto.CmdReadDirEntry ==> fpos[c] == old(fpos[c]) && wn[c] == old(wn[c]) + 11 + be16(wdata[c], old(wn[c]) + 8) @dir-entry
+//@   ensures[C03] err == nil && opCode == proto.CmdReadDirEntryV2 ==> fpos[c] == old(fpos[c]) && wn[c] == old(wn[c]) + 35 + be16(wdata[c], old(wn[c]) + 32) @dir-entry-v2
+//@   ensures[C03] err == nil && opCode == proto.CmdReadDir ==> fpos[c] == old(fpos[c]) && wn[c] == old(wn[c]) + 8 + 529 * sbe64(wdata[c], old(wn[c])) @read-dir
+//@   ensures[C03] err == nil && opCode == proto.CmdReadFile && gbe32(ctx.rd.cmd.Data, 2) < 1<<31 ==> fpos[c] == old(fpos[c]) && wn[c] >= old(wn[c]) + 4 && sbe32(wdata[c], old(wn[c])) == wn[c] - old(wn[c]) - 4 @read-file
+//@   ensures[C03] err == nil && opCode == proto.CmdReadFileCritical ==> fpos[c] == old(fpos[c]) && wn[c] == old(wn[c]) + gbe32(ctx.rd.cmd.Data, 2) @read-file-critical
+//@   ensures[C03] err == nil && opCode == proto.CmdReadCD2048Critical ==> fpos[c] == old(fpos[c]) && wn[c] == old(wn[c]) + 2048 * gbe32(ctx.rd.cmd.Data, 6) @read-cd
+//@   ensures[C03] err == nil && opCode == proto.CmdWriteFile ==> fpos[c] == old(fpos[c]) + min(gbe32(ctx.rd.cmd.Data, 2), fsize[c] - old(fpos[c])) && wn[c] == old(wn[c]) + 4 @write-file
+
+//@ func Server.setConnReadDeadline results(err)
+//@   tags C16,C04
+//@   requires s != nil && conn != nil
+//@   modifies armed[conn]
+//@   ensures[C16] s.ReadTimeout > 0 && err == nil ==> armed[conn] @armed
+//@   ensures[C16] s.ReadTimeout <= 0 ==> err == nil && armed[conn] == old(armed[conn]) @no-timeout
+
+//@ func Server.deriveConnContext results(c)
+//@   tags C04
+//@   requires s != nil
+
+//@ func Server.serveConn
+//@   tags C03,C05,C13,C16,C04
+//@   requires s != nil && s.Handler != nil && conn != nil && limbase[conn] == 0 && wsink(conn) == conn && isconn[conn] && wsink(io.Discard) != conn
+//@   requires fpos[conn] >= 0 && (timeoutConfigured(conn) <==> s.ReadTimeout > 0)
+//@   requires forall x {handlerInv(s.Handler, x)} :: !allocated(x) ==> handlerInv(s.Handler, x) @fresh-context-satisfies-handler-invariant
+//@   modifies fopen, fpos, limbase, iofaults, fsw, walkroot, rwhdr, wn, wdata, armed, connclosed, nctxclosed
+//@   ensures[C13] nctxclosed == old(nctxclosed) + 1 && connclosed[conn] @released-on-every-exit
+//@   ensures[C05] !writeAllowed(s.Handler) ==> fsw == old(fsw) @read-only-unless-enabled
+//@   ensures[C03] outKept(conn) @responses-only-appended
+//@   loop 1 invariant wfCtx(ctx) && ctx.rd.Reader == conn && handlerInv(s.Handler, ctx) && fpos[conn] >= 0 @ctx
+//@   loop 1 invariant[C05] !writeAllowed(s.Handler) ==> fsw == old(fsw) @read-only
+//@   loop 1 invariant[C03] wn[conn] >= old(wn[conn]) && (forall k {wdata[conn][k]} :: k < old(wn[conn]) ==> wdata[conn][k] == old(wdata[conn][k])) @responses-only-appended
+//@   loop 1 invariant nctxclosed == old(nctxclosed) && iofaults >= old(iofaults) @not-closed-yet
